@@ -1,6 +1,7 @@
 """C05 — the site documents exactly the entities selected by the display options."""
 import collections
 import json
+import pathlib
 import re
 
 from harness import core
@@ -191,6 +192,164 @@ def check_project(chk, files, texts, cfgs, what, stats):
 
 
 
+# ---------------------------------------------------------------------------------------------- end to end
+
+TRACER = re.compile(r"zq(\d+)w\d+")
+PAGE_DIRS = ("proc", "type", "interface", "module", "program", "blockdata", "namelist")
+
+
+def spec_values(chk, files, cfg):
+    """(selected ids, {id: region mask}, ids with a page) of the Spec, evaluated in Coq"""
+    c = D.coq_cfg(cfg)
+    terms = [f"(selected {c} ({D.coq_node(f)}), regions {c} ({D.coq_node(f)}), spec_pages {c} ({D.coq_node(f)}))"
+             for f in files]
+    out = chk.coq_eval(IMPORTS, "[" + "; ".join(terms) + "]")
+    if out.startswith("COQ-ERROR"):
+        return None
+    body = out.rsplit(":", 1)[0]
+    sel, regs, pages = set(), {}, set()
+    for s_, r_, p_ in re.findall(r"\(\[([\d; ]*)\],\s*\[((?:\(\d+, \d+\)(?:;\s*)?)*)\],\s*\[([\d; ]*)\]\)", body):
+        sel |= {int(x) for x in s_.split(";") if x.strip()}
+        pages |= {int(x) for x in p_.split(";") if x.strip()}
+        for a, b in re.findall(r"\((\d+), (\d+)\)", r_):
+            regs[int(a)] = int(b)
+    return sel, regs, pages
+
+
+def site_allowed(files, sel):
+    """DESIGN §6 C05: the specific procedure behind a selected binding / generic interface (and its dummy
+    arguments) is presented at that site"""
+    ok = set()
+    for f in files:
+        for _, u in f["children"]:
+            procs = {D.fname(c): c for l, c in u["children"] if l in ("functions", "subroutines")}
+            for n, path in D.walk(u):
+                names = []
+                if n["id"] in sel and n["kind"] in ("bound", "final"):
+                    names = [n["target"]]
+                elif n["id"] in sel and n["kind"] == "generic":
+                    names = n["members"]
+                for nm in names:
+                    if nm in procs:
+                        ok.add(procs[nm]["id"])
+                        ok |= {a["id"] for a in D.kids(procs[nm], "args")}
+    return ok
+
+
+def end_to_end_one(chk, files, texts, cfg, stats, graph=False):
+    """full FORD run; tracer words of unselected entities must not appear in any generated page nor in the
+    search index; every page belongs to a selected entity; links point at existing pages"""
+    sv = spec_values(chk, files, cfg)
+    if sv is None:
+        chk.obligation("spec-evaluation", False, "coq_eval failed")
+        return
+    sel, regs, spages = sv
+    nodes = {n["id"]: (n, path) for f in files for n, path in D.walk(f)}
+    allowed = sel | site_allowed(files, sel)
+    # never-filtered namelists show the documentation of the variables they list
+    nl_vars = collections.defaultdict(set)
+    for i, (n, path) in nodes.items():
+        if n["kind"] == "namelist":
+            sib = {c["name"]: c["id"] for l, c in path[-1][1]["children"] if l == "variables"}
+            for v in n["vars"]:
+                if v in sib:
+                    nl_vars[sib[v]].add(i)
+    # never-filtered final procedures present their target procedure (and its arguments)
+    via_final = set()
+    for f in files:
+        for _, u in f["children"]:
+            procs = {D.fname(c): c for l, c in u["children"] if l in ("functions", "subroutines")}
+            for n, path in D.walk(u):
+                if n["kind"] == "final" and n["id"] not in sel and n["target"] in procs:
+                    via_final.add(procs[n["target"]]["id"])
+                    via_final |= {a["id"] for a in D.kids(procs[n["target"]], "args")}
+    with F.Work(texts) as w:
+        opts = {"display": cfg["display"], "proc_internals": str(cfg["proc_internals"]).lower(),
+                "hide_undoc": str(cfg["hide_undoc"]).lower(), "search": "true", "incl_src": "false",
+                "graph": "true" if graph else "false"}
+        data, log, err = F.full_run_inprocess(w.root, opts)
+        if err:
+            stats["e2e-run-failed"] += 1
+            chk.violation("failing-input", {"what": "full FORD run failed on a generated project", "error": err,
+                                            "cfg": cfg, "files": texts, "log": log[-1500:]}, True)
+            return
+        doc = w.root / "doc"
+        found = collections.defaultdict(set)
+        hrefs = collections.defaultdict(set)
+        for pth in doc.rglob("*"):
+            rel = pth.relative_to(doc)
+            if not pth.is_file() or rel.parts[0] in ("src", "css", "js", "webfonts", "tipuesearch"):
+                continue
+            if pth.suffix not in (".html", ".json", ".js", ".svg"):
+                continue
+            text = pth.read_text(errors="replace")
+            for m in TRACER.finditer(text):
+                found[int(m.group(1))].add(str(rel))
+            if pth.suffix == ".html":
+                for m in re.finditer(r"""(?:xlink:)?href=["']([^"'#]+\.html)(?:#[^"']*)?["']""", text):
+                    if not m.group(1).startswith("http"):
+                        hrefs[str(rel)].add(m.group(1))
+        page_files = {d: {p.name for p in (doc / d).glob("*.html")} for d in PAGE_DIRS}
+        # (1) leakage
+        for i, where in sorted(found.items()):
+            stats["e2e-words-seen"] += 1
+            if i in allowed or i not in nodes:
+                continue
+            chk.disagreements += 1
+            reg = regs.get(i, 64)
+            reg = reg & 63 if reg & 15 else reg
+            keys = [key for bit, key in REGIONS.items() if reg & bit]
+            if not keys and i in nl_vars:
+                keys = ["namelist-never-filtered"]
+            if not keys and i in via_final:
+                keys = ["final-never-filtered"]
+            if not keys:
+                n, path = nodes[i]
+                stats["e2e-leak-outside-regions"] += 1
+                chk.violation("failing-input", {"what": "documentation of an unselected entity appears in the output",
+                                                "entity": n["name"], "kind": n["kind"],
+                                                "path": [(l, q["name"]) for l, q in path], "where": sorted(where),
+                                                "cfg": cfg, "files": texts}, True)
+            for key in keys:
+                stats["e2e-leak:" + key] += 1
+                if not any(x["key"] == key and x.get("status", "open") == "open" for x in chk.findings):
+                    chk.violation("failing-input", {"what": "documentation of an unselected entity appears "
+                                                            "(unrecorded region " + key + ")", "entity": nodes[i][0]["name"],
+                                                    "where": sorted(where), "cfg": cfg, "files": texts}, True)
+        # (2) every selected, documented entity whose parent has a page is described somewhere
+        for i in sorted(sel):
+            n, path = nodes[i]
+            if not n["doc"] or n["kind"] == "file" or i in found:
+                continue
+            parent = path[-1][1]
+            reg = regs.get(i, 64)
+            reg = reg & 63 if reg & 15 else reg
+            keys = [key for bit, key in REGIONS.items() if reg & bit]
+            if keys:              # e.g. hidden because FORD does not hand the file's display down
+                for key in keys:
+                    stats["e2e-missing:" + key] += 1
+                continue
+            if parent["id"] in spages or parent["kind"] in ("module", "submodule", "program", "blockdata") \
+                    or (parent["kind"] in ("function", "subroutine") and path[-2][1]["kind"] == "file"):
+                stats["e2e-missing"] += 1
+                chk.violation("failing-input", {"what": "a selected, documented entity is described nowhere",
+                                                "entity": n["name"], "kind": n["kind"],
+                                                "path": [(l, q["name"]) for l, q in path], "cfg": cfg,
+                                                "files": texts}, True)
+        # (3) links (also those of graph nodes) point at pages that exist
+        for page, targets in hrefs.items():
+            for t in targets:
+                tgt = (doc / page).parent / t
+                if not tgt.resolve().exists():
+                    parts = pathlib.PurePath(t).parts
+                    if len(parts) >= 2 and parts[-2] in PAGE_DIRS:
+                        stats["e2e-dangling"] += 1
+                        chk.violation("failing-input", {"what": "a link points at the page of an entity that has "
+                                                                "no page (unselected)", "page": page, "href": t,
+                                                        "cfg": cfg, "files": texts}, True)
+        stats["e2e-pages"] += sum(len(v) for v in page_files.values())
+
+
 def all_cfgs(rng=None, n=None):
     cfgs = [{"display": d or ["public", "protected"], "proc_internals": pi, "hide_undoc": hu}
             for d in D.DISPLAYS for pi in (False, True) for hu in (False, True)]
@@ -212,6 +371,12 @@ def run(chk):
             chk.count(("random", k, json.dumps(cfg, sort_keys=True)),
                       sample={"cfg": cfg, "files": texts} if k == 0 else None)
         check_project(chk, files, texts, cfgs, "random project", stats)
+    for k in range(6 if quick else 60):
+        files = D.gen_project(rng)
+        texts = D.render_project(files)
+        cfg = rng.choice(all_cfgs())
+        chk.count(("e2e", k, json.dumps(cfg, sort_keys=True)))
+        end_to_end_one(chk, files, texts, cfg, stats, graph=(k % 3 == 0))
     chk.extra["distribution"] = dict(stats)
 
 
